@@ -23,6 +23,10 @@ except Exception:
 
 ROOT = os.path.dirname(os.path.dirname(os.path.abspath(__file__)))
 EVIDENCE_DIR = os.path.join(ROOT, 'evidence')
+if os.path.realpath(os.environ.get('VERIF_REPO', '/repo')) != os.path.realpath('/repo'):
+    # sensitivity runs against a scratch tree (mutants, seeded changes) must not overwrite the
+    # evidence of /repo itself
+    EVIDENCE_DIR = os.path.join(os.environ.get('TMPDIR', '/tmp'), 'verif_scratch_evidence')
 REPLAY_OUT = os.path.join(EVIDENCE_DIR, 'replays')
 REPLAY_DIR = os.path.join(ROOT, 'replays')
 KF_FILE = os.path.join(ROOT, 'known_findings.json')
